@@ -17,6 +17,17 @@ def psum (pa : Nat → Rat) : Nat → Rat
   | 0 => 0
   | j + 1 => psum pa j + pa j
 
+/-! ### what the slow paths of the ziggurat samplers must be (specifications, written from the literature, not from the code) -/
+
+/-- Marsaglia's tail algorithm for the standard normal distribution beyond `r` (Marsaglia 1964; "Ziggurat algorithm", fallback
+    for the tail).  One iteration draws e1, e2 ~ Exp(1), proposes the excess `x = c * e1` with `c = 1 / r` and REJECTS (goes
+    round again) iff `2 * e2 ≤ x * x`.  Returns (x, e2, reject?). -/
+def marsagliaIter (c e1 e2 : Rat) : Rat × Rat × Bool :=
+  (c * e1, e2, decide (2 * e2 ≤ (c * e1) * (c * e1)))
+
+/-- … the accepted variate is `± (x + r)` -/
+def marsagliaResult (r sign x : Rat) : Rat := sign * (x + r)
+
 /-- what is assumed of `sqrt` (a hypothesis of the triangular bound, never an axiom) -/
 structure SqrtLike (f : Rat → Rat) : Prop where
   nonneg : ∀ y, 0 ≤ y → 0 ≤ f y
@@ -92,5 +103,34 @@ theorem notHot_nonneg (T : ExpTab Rat) (h : ExpFacts T) (fexp : Rat → Rat) (ra
         have : 0 ≤ T.x (raw (k + 2) % 256) * ((raw (k + 2) : Nat) : Rat) := mul_nonneg this (by positivity)
         linarith
       · exact ih _ _ _ _ hx' hr
+
+/-- the tail of the exponential ziggurat uses the memoryless property: every value returned after the offset has been advanced is
+    at least the offset (offset + a fresh exponential variate) -/
+theorem overhang_ge_zero_offset (T : ExpTab Rat) (h : ExpFacts T) (fexp : Rat → Rat) (raw : Nat → Nat) :
+    ∀ fuel k ucx xoff r, 0 ≤ xoff → notHot T fexp raw fuel k ucx xoff = some r → xoff ≤ r.1 := by
+  intro fuel
+  induction fuel with
+  | zero => intro k ucx xoff r _ hr; simp [notHot] at hr
+  | succ f ih =>
+    intro k ucx xoff r hx hr
+    unfold notHot at hr
+    simp only [] at hr
+    split at hr
+    · split at hr
+      · cases hr
+      · rename_i r' hov
+        cases hr
+        have := overhang_nonneg T h fexp raw _ _ _ _ _ _ hov
+        simp only []; linarith
+    · have ht := h.tail_nonneg
+      have hx' : 0 ≤ xoff + T.tail := by linarith
+      split at hr
+      · cases hr
+        simp only [cnum_ofNat]
+        have := h.x_nonneg (raw (k + 2) % 256)
+        have : 0 ≤ T.x (raw (k + 2) % 256) * ((raw (k + 2) : Nat) : Rat) := mul_nonneg this (by positivity)
+        linarith
+      · have := ih _ _ _ _ hx' hr
+        linarith
 
 end CimbaModel.Rng.Dist
